@@ -1,4 +1,5 @@
 import NomtModel.Driver.CoreMode
+import NomtModel.Driver.ApiMode
 /-!
 `nomt_model`: the executable Lean model behind a line protocol.
 First argument selects the sub-protocol; stdin → stdout, one output line per input line.
@@ -17,4 +18,5 @@ def main (args : List String) : IO UInt32 := do
   let stdout ← IO.getStdout
   match args with
   | ["core"] => loop stdin stdout coreStep {}; return 0
+  | ["api"] => loop stdin stdout apiStep { root := zeros32 }; return 0
   | _ => IO.eprintln "usage: nomt_model <core|...>"; return 2
